@@ -520,10 +520,13 @@ func (w *W) begin(ci int) (clienttypes.Height, uint64) {
 // record appends the step with the implementation's observation.
 func (w *W) record(ci int, h clienttypes.Height, t uint64, op map[string]any, out string, cbStart int) {
 	evs := []any{}
-	if out == "ok" {
-		for _, e := range w.cbs[cbStart:] {
-			if e.Chain == ci {
+	att := []any{} // callbacks that were invoked although the message did not succeed (its state is reverted)
+	for _, e := range w.cbs[cbStart:] {
+		if e.Chain == ci {
+			if out == "ok" {
 				evs = append(evs, e.Ev)
+			} else {
+				att = append(att, e.Ev)
 			}
 		}
 	}
@@ -534,7 +537,7 @@ func (w *W) record(ci int, h clienttypes.Height, t uint64, op map[string]any, ou
 			w.cbs = append(w.cbs, cbEntry{ci, e.([]any)})
 		}
 	}
-	w.steps = append(w.steps, map[string]any{"c": ci, "h": hj(h), "t": hx.U(t), "op": op, "out": out, "evs": evs, "proj": w.dump(ci)})
+	w.steps = append(w.steps, map[string]any{"c": ci, "h": hj(h), "t": hx.U(t), "op": op, "out": out, "evs": evs, "att": att, "proj": w.dump(ci)})
 }
 
 // tx runs msgs as one transaction in one block.
